@@ -16,7 +16,13 @@ real run : kind "script"   the real AsyncTLSStreamTransport (made by its own wra
                            and / or 2 … 4 connections at once; readers parked first, then all the writers send in the same
                            loop turn (also writers-first / staggered), 1 B … several records, recv and recv_into,
                            TLS 1.3 / 1.2; each end must read exactly what its own peer wrote (vlib/c08_multi.py);
-           "lend": true    (duplex, session) the in-memory wrapped transports keep the buffer given to recv_into across a
+           kind "bulk"     ONE big write call (ciphertext around / above the transport's 256 KiB staging areas: k x 262144 +- a
+                           byte / a record, 400 KiB, 512 KiB+, 1 MB; or one send_all_from_iterable of thousands of chunks),
+                           then the writer goes IDLE while its side's reader is already parked and the peer answers only after
+                           it has read everything; COARSE in-memory transports that hand over everything they have up to the
+                           caller's buffer size (a read can fill the 256 KiB buffer exactly, then silence); peer = stdlib
+                           SSLObject or a second library transport (vlib/c08_bulk.py, oracle only);
+           "lend": true    (duplex, session, bulk) the in-memory wrapped transports keep the buffer given to recv_into across a
                            suspension and fill it from a loop callback one iteration before the reader resumes (what the
                            asyncio adapter does), so that two deliveries land before either reader has looked;
            kind "blocking" SSLStreamTransport over a socketpair, relay thread re-fragmenting, stdlib SSLSocket peer.
@@ -27,7 +33,8 @@ model run: script and session cases: the recorded engine answers + the observed 
 oracle   : plaintext delivered == plaintext written, in order, both directions (engine level for scripted cases, peer level for
            real sessions); nothing but bytes that came out of the outgoing BIO reaches the wrapped transport (and no 8-byte
            window of plaintext occurs in them); no overlapping send_all / recv_into on the wrapped transport; no deadlock;
-           no exception other than the documented ones.
+           no exception other than the documented ones; when a write call has returned and no other write call of that
+           side is in progress the outgoing BIO and the backlog are empty (bulk, duplex, session).
 """
 from __future__ import annotations
 
@@ -91,6 +98,8 @@ ASSUMPTIONS = [
     "no cancellation and no aclose() during the modelled operations (covered by C10 / C09 / C14)",
     "TlsLaws for the transparency theorem; one reader task per direction for the end-to-end statement",
     "blocking variant: real threads, judged on inputs/outputs only; a harness-side timeout is an infrastructure error",
+    "bulk kind: oracle only (no model run); the exact-size cases rely on the per-record overhead of the running OpenSSL, "
+    "probed once per TLS version (the cases themselves hold plain byte counts)",
     "multi kind (real sockets): judged on bytes / errors only, no model run; a stuck session is a result only when a second "
     "run of the same case fails too, otherwise (and for the wall-clock guard) an infrastructure error",
 ]
@@ -106,6 +115,11 @@ RULE = (
     "socketpair connections in one loop over the real asyncio adapter (each: both ends the library, or library + stdlib "
     "peer) x handshakes together / sequential x rounds (order readers-first / writers-first / staggered x recv / "
     "recv_into x message sizes 1 B … 3 records per direction and connection) x TLS version x role x socket send buffer; "
+    "bulk case = 1 … 3 request/response or simultaneous steps x ONE write call per writer (send_all / "
+    "send_all_from_iterable) with ciphertext exactly / around k x 256 KiB, up to 1 MB, or thousands of one-record chunks x "
+    "peer (stdlib SSLObject / second library transport) x coarse pipes (unbounded / 64 KiB / exactly 256 KiB / 1 MiB; reads "
+    "up to the caller's buffer or capped at 256 KiB, 256 KiB - 1, 100000; buffer copied / lent) x readers-first / "
+    "writers-first x recv / recv_into sizes x TLS version x role; "
     "non-trivial = a retried write after WANT_*, a partial write, a task parked on "
     "a transport lock, a read that had to wait, a multi-step handshake, or a real session; distinct by case digest"
 )
@@ -137,6 +151,9 @@ def run_real(case: dict) -> list[str]:
     if kind == "multi":
         from vlib import c08_multi as M
         return M.run_multi(case)
+    if kind == "bulk":
+        from vlib import c08_bulk as K
+        return K.run_bulk(case)
     return [f"harness-exc unknown kind {kind}"]
 
 
@@ -150,7 +167,7 @@ def real_for_diff(case: dict, real: list[str]) -> list[str]:
 
 
 def model_input(case: dict, real: list[str]):
-    if case.get("kind", "script") == "multi":
+    if case.get("kind", "script") in ("multi", "bulk"):
         return None                             # oracle only
     if case.get("kind", "script") == "blocking":
         ops = [ln.split(" -> ")[0] for ln in real if ln.startswith("try ")]
@@ -184,7 +201,15 @@ def oracle(case: dict, real: list[str]) -> str | None:
     if kind == "multi":
         from vlib import c08_multi as M
         return M.problem(case, real)
+    if kind == "bulk":
+        from vlib import c08_bulk as K
+        return K.problem(case, real)
     o = {ln.split()[0]: ln for ln in real if ln.startswith("o.")}
+    if "o.left-behind" in o:
+        # generalised completion clause: once a write call has returned and no other write call of that side is in progress,
+        # nothing of it is left in the outgoing BIO / the backlog (nobody would send it while the side stays idle)
+        return ("a write call returned although ciphertext / chunks of it were left in the outgoing BIO / backlog and no other "
+                "write call of that side was in progress: " + o["o.left-behind"].split(None, 1)[1])
     # an operation may fail only when the SSL engine reported an error / EOF / close, or the wrapped transport raised or ended
     env_failed = any((ln.startswith("eng ") and ln.split()[2] in ("zeroreturn", "eoferror", "error"))
                      or (ln.startswith("op resume ") and ln.split()[3] in ("err", "eof")) for ln in real)
@@ -274,6 +299,14 @@ def nontrivial(case: dict, real: list[str]) -> str | None:
         nlib = sum(2 if c.get("peer", "easynet") == "easynet" else 1 for c in conns)
         orders = sorted({rd.get("order", "readers-first") for rd in case.get("rounds") or []})
         return f"multi/{len(conns)}conn/{nlib}tls/{case.get('ver', '1.3')}/{'+'.join(orders) or 'hs-only'}"
+    if kind == "bulk":
+        steps = case.get("steps") or []
+        big = max((sum(n + 22 * -(-n // 16384) for n in ([w[1]] if w[0] == "send" else w[1]))   # ~ ciphertext of ONE call
+                   for st in steps for x in ("a", "b") for w in (st.get(x) or [])), default=0)
+        firsts = "+".join(sorted({st.get("first", "a") for st in steps})) or "none"
+        size = "3x+" if big > 3 * 262144 else "2x+" if big > 2 * 262144 else "1x+" if big > 262144 - 400 else "below"
+        return (f"bulk/{case.get('peer', 'raw')}/{case.get('ver', '1.3')}/{size}/{firsts}"
+                f"{'/bounded' if case.get('cap') else ''}{'/lent' if case.get('lend') else ''}")
     if kind == "duplex":
         bp = next((_kv(ln) for ln in real if ln.startswith("o.backpressure ")), None)
         both = bp is not None and int(bp["a2b"]) > 0 and int(bp["b2a"]) > 0
@@ -305,8 +338,58 @@ def nontrivial(case: dict, real: list[str]) -> str | None:
     return "script/" + "+".join(sorted(flags)) if flags else None
 
 
+def _bulk_total(writes: list) -> int:
+    return sum((w[1] if w[0] == "send" else sum(w[1])) for w in writes)
+
+
+def _shrink_bulk(case: dict):
+    steps = case.get("steps") or []
+    for i in range(len(steps)):                                 # drop a step
+        yield {**case, "steps": steps[:i] + steps[i + 1:]}
+    for key in ("lend", "cap", "rbuf"):
+        if case.get(key):
+            yield {k: v for k, v in case.items() if k != key}
+    if case.get("peer", "raw") != "raw":
+        yield {**case, "peer": "raw"}
+    if case.get("ver", "1.3") != "1.3":
+        yield {**case, "ver": "1.3"}
+    if case.get("role", "client") != "client":
+        yield {**case, "role": "client"}
+    for i, st in enumerate(steps):
+        def put(new: dict, i=i) -> dict:
+            return {**case, "steps": steps[:i] + [new] + steps[i + 1:]}
+        for key in ("order", "park", "a_recv", "b_recv"):
+            if key in st:
+                yield put({k: v for k, v in st.items() if k != key})
+        if st.get("first", "a") == "both":
+            yield put({**st, "first": "a"})
+            yield put({**st, "first": "b"})
+        for side in ("a", "b"):
+            ws = list(st.get(side) or [])
+            for j, w in enumerate(ws):
+                if len(ws) > 1:                                 # drop a writer
+                    yield put({**st, side: ws[:j] + ws[j + 1:]})
+                if w[0] == "senditer":
+                    ch = list(w[1])
+                    if len(ch) > 1:
+                        yield put({**st, side: ws[:j] + [["send", sum(ch)]] + ws[j + 1:]})
+                        yield put({**st, side: ws[:j] + [["senditer", ch[:len(ch) // 2]]] + ws[j + 1:]})
+                        yield put({**st, side: ws[:j] + [["senditer", ch[len(ch) // 2:]]] + ws[j + 1:]})
+                else:
+                    n = w[1]
+                    for m in (32, n // 2, n - 16384, n - 1):
+                        if 0 < m < n:
+                            yield put({**st, side: ws[:j] + [["send", m]] + ws[j + 1:]})
+
+
 def shrink(case: dict):
     kind = case.get("kind", "script")
+    if kind == "bulk":
+        if "note" in case:
+            case = {k: v for k, v in case.items() if k != "note"}
+            yield case
+        yield from _shrink_bulk(case)
+        return
     if "note" in case:                       # the comment of a corpus case does not describe its shrunk descendants
         case = {k: v for k, v in case.items() if k != "note"}
         yield case
@@ -436,6 +519,8 @@ def known_key(case: dict, real: list[str], why: str) -> str:
     kind = case.get("kind", "script")
     if "deadlock" in why:
         return f"kind={kind},deadlock"
+    if "in the outgoing BIO" in why:
+        return f"kind={kind},left-behind"
     if "accepted" in why:
         return f"kind={kind},write-path"
     if "wrapped transport" in why:
@@ -675,18 +760,81 @@ def _gen_multi(rng, n: int) -> dict:
     return case
 
 
+def _gen_bulk(rng, n: int) -> dict:
+    """one big write call (around / above the 256 KiB staging areas of the transport), the writer then idle, through
+    coarse transports that hand over everything they have up to the caller's buffer (vlib/c08_bulk.py)"""
+    from vlib import c08_bulk as K
+    ver = rng.choice(["1.3", "1.3", "1.2"])
+    ovh = K.record_overhead(ver)
+    S = K.STAGING
+
+    def size(kind: str) -> list:
+        """-> one write call"""
+        if kind == "small":
+            return ["send", rng.choice([1, 32, 100, 5000, 16384, 16385])]
+        if kind == "chunks":                                        # ONE send_all_from_iterable: every chunk is a record
+            k = rng.choice([300, 2000, 8000, 13000])
+            c = rng.choice([1, 7, 20, 100])
+            return ["senditer", [c] * k + [rng.choice([1, 5000])]]
+        if ovh is None or kind == "plain":
+            return ["send", rng.choice([S - 400, S - 1, S, S + 1, S + 16384, 2 * S, 2 * S + 1, 400 * 1024, 512 * 1024 + 7,
+                                        3 * S + 100, 1000000])]
+        # ciphertext of exactly / just around k staging areas
+        k = rng.choice([1, 1, 1, 2, 2, 3])
+        d = rng.choice([0, 0, 0, 0, -1, 1, -ovh, ovh, -(16384 + ovh), 16384 + ovh, 5])
+        ch = K.plain_for_ct(k * S + d, ovh)
+        return ["send", ch[0]] if len(ch) == 1 else ["senditer", ch]
+
+    steps = []
+    for _ in range(rng.choice([1, 1, 2, 3])):
+        first = rng.choice(["a", "a", "b", "b", "both"])
+        kinds = ["exact", "exact", "exact", "plain", "plain", "chunks"]
+        if first == "a":
+            wa, wb = [size(rng.choice(kinds))], [size(rng.choice(["small", "small", "exact"]))]
+        elif first == "b":
+            wa, wb = [size(rng.choice(["small", "small", "exact"]))], [size(rng.choice(kinds))]
+        else:
+            wa, wb = [size(rng.choice(kinds))], [size(rng.choice(kinds + ["small"]))]
+        if rng.random() < 0.15:
+            wa.append(size(rng.choice(["small", "plain"])))         # a second concurrent write call on side a
+        st = {"first": first, "a": wa, "b": wb}
+        if rng.random() < 0.25:
+            st["order"] = "writers-first"
+        if rng.random() < 0.3:
+            st["park"] = rng.choice([0, 1, 8])
+        if rng.random() < 0.5:
+            st["a_recv"] = rng.choice([["recv", 16384], ["recv", 70000], ["recv", 1 << 20], ["recvinto", 65536],
+                                       ["recvinto", 262144], ["recvinto", 300000]])
+        if rng.random() < 0.3:
+            st["b_recv"] = rng.choice([16384, 70000, 262144, 1 << 20])
+        steps.append(st)
+    case = {"kind": "bulk", "seed": n, "ver": ver, "role": rng.choice(["client", "client", "server"]),
+            "peer": rng.choice(["raw", "easynet", "easynet"]), "steps": steps}
+    r = rng.random()
+    if r < 0.15:
+        case["cap"] = rng.choice([65536, S, S, 1 << 20])            # bounded pipes (0 = unbounded: the usual case here)
+    elif r < 0.25:
+        case["rbuf"] = rng.choice([[0, 65536], [S, S], [S - 1, 0], [100000, 0]])
+    if rng.random() < 0.3:
+        case["lend"] = True
+    return case
+
+
 def generate(rng, tier: str, boost: int):
     n_script = (6000 if tier == "quick" else 60000) * boost
     n_sess = (150 if tier == "quick" else 1500) * boost
     n_blk = (8 if tier == "quick" else 60) * (1 if boost == 1 else 2)
     dup_every = 2 if tier == "quick" else 3        # 75 / 500 duplex sessions
     multi_every = 3                                # 50 / 500 multi-transport sessions over the real asyncio adapter
+    bulk_every = 3                                 # 50 / 500 big-write / coarse-fragmentation sessions (vlib/c08_bulk.py)
     for i in range(n_sess):
         yield _gen_session(rng, rng.randrange(1 << 30))
         if i % dup_every == 0:
             yield _gen_duplex(rng, rng.randrange(1 << 30))
         if i % multi_every == 1:
             yield _gen_multi(rng, rng.randrange(1 << 30))
+        if i % bulk_every == 2:
+            yield _gen_bulk(rng, rng.randrange(1 << 30))
         for _ in range(n_script // max(n_sess, 1)):
             yield _gen_script(rng)
     for i in range(n_blk):
